@@ -364,11 +364,11 @@ def long_history(ctx):
 
 def run(ctx) -> None:
     logcap.install()
-    depth, maxlog = (7, 5) if ctx.quick else (11, 7)
+    depth, maxlog = (7, 5) if ctx.quick else (9, 6)
     seen, transitions, viol, vcount, maxd = explore(depth, maxlog, ctx)
     # non-initial starting states: the controller already holds K entries the library has never heard of (it was started later / every
     # announcement was lost); from there every history to depth d2 with a deeper log allowed
-    k0, d2, maxlog2 = (4, 5, 6) if ctx.quick else (5, 7, 8)
+    k0, d2, maxlog2 = (4, 5, 6) if ctx.quick else (5, 6, 8)
     roots = [tuple(("new", False) for _ in range(k)) for k in (k0, k0 + 1)]
     seen2, tr2, viol2, vc2, maxd2 = explore(d2, maxlog2, ctx, roots=roots)
     for k, v in viol2.items():
